@@ -24,7 +24,7 @@ def run(res, args):
         res.corr_notes.append("race build failed: " + outr[-2000:])
         return res.finish()
     rng = common.rng_for(res.seed, "c09")
-    n = 200 if res.tier == "quick" else 3000
+    n = 200 if res.tier == "quick" else 12000
     items = []
     for _ in range(n):
         r = rng.random()
